@@ -377,6 +377,8 @@ type subject struct {
 	tag  string // "mem" or "reloaded"
 	big  bool
 	full bool // also emit layer-2 ops that are expensive on the model side
+	// machine: also diff seek / prefix against the iterator stack machine over the vectors
+	machine bool
 }
 
 func (s *subject) fail(key, format string, a ...interface{}) {
@@ -478,6 +480,12 @@ func (s *subject) lget(k []byte) {
 
 func (s *subject) iterAll(op string) {
 	var got []pair
+	defer func() {
+		if op == "iter" && s.full {
+			// the same observation against the iterator stack machine over the vectors
+			s.c.Op("siter", showPairs(got))
+		}
+	}()
 	s.c.Guard(op, func() string {
 		got = got[:0]
 		it := s.t.NewIterator()
@@ -507,6 +515,9 @@ func (s *subject) riter() {
 		}
 		return showPairs(got)
 	})
+	if s.full {
+		s.c.Op("sriter", showPairs(got))
+	}
 	want := s.m.pairs(0, len(s.m.keys))
 	for i, j := 0, len(want)-1; i < j; i, j = i+1, j-1 {
 		want[i], want[j] = want[j], want[i]
@@ -534,6 +545,7 @@ func (s *subject) seek(k []byte) {
 	m := s.m
 	var landed []pair
 	var n int
+	var seekOut string
 	s.c.Guard("seek "+hx(k), func() string {
 		it := s.t.NewIterator()
 		fp := it.Seek(k)
@@ -543,11 +555,21 @@ func (s *subject) seek(k []byte) {
 		}
 		if !it.Valid() {
 			n, landed = 0, nil
-			return fmt.Sprintf("fp=%d invalid", f)
+			seekOut = fmt.Sprintf("fp=%d invalid", f)
+			return seekOut
 		}
 		n, landed = drain(it, len(m.keys)+2)
-		return fmt.Sprintf("fp=%d n=%d %s", f, n, showPairs(landed))
+		seekOut = fmt.Sprintf("fp=%d n=%d %s", f, n, showPairs(landed))
+		return seekOut
 	})
+	if seekOut != "" && s.machine {
+		// the stack machine is only asked for the landing position and the next two keys
+		if n == 0 {
+			s.c.Op("sseek "+hx(k), seekOut)
+		} else {
+			s.c.Op("sseek "+hx(k), seekOut[:strings.Index(seekOut, " ")]+" "+showPairs(landed))
+		}
+	}
 	lb := m.lb(k)
 	wantN := len(m.keys) - lb
 	if n != wantN || (n > 0 && !bytes.Equal(landed[0].k, m.keys[lb])) {
@@ -595,6 +617,9 @@ func (s *subject) prefix(p []byte) {
 		}
 		return showPairs(got)
 	})
+	if s.machine {
+		s.c.Op("sprefix "+hx(p), showPairs(got))
+	}
 	want := s.m.withPrefix(p)
 	if !samePairs(got, want) {
 		s.fail("prefix-mismatch", "keys=%d PrefixIterator(%s) returned %d pairs, filter gives %d (or they differ)", len(s.m.keys), hx(p), len(got), len(want))
@@ -630,6 +655,7 @@ func (s *subject) queries(r *rand.Rand, probes [][]byte) {
 		if i >= nSeek {
 			break
 		}
+		s.machine = len(s.m.keys) <= 400 || i < 6
 		s.seek(k)
 		if !s.big || len(s.m.withPrefix(k)) < 200 {
 			s.prefix(k)
